@@ -221,6 +221,14 @@ EXPORT void vec_znx_normalize_base2k_ref(const MODULE* module,                  
   int64_t* cout = (int64_t*)tmp_space;
   int64_t* cin = 0x0;
 
+  // empty input or empty output: nothing to normalize, res (if any) is zero
+  if (a_size == 0 || res_size == 0) {
+    for (uint64_t j = 0; j < res_size; ++j) {
+      znx_zero_i64_ref(nn, res + j * res_sl);
+    }
+    return;
+  }
+
   // propagate carry until first limb of res
   int64_t i = a_size - 1;
   for (; i >= res_size; --i) {
